@@ -73,5 +73,6 @@ extern void c19_env_reset(void);
 /* the device object handed out by the open functions (NULL while closed) */
 extern int c19_device_is_open(void);
 extern void *c19_device_handle(void);
+extern int c19_locks_held(void);   /* mutexes held (solver build; 0 natively) */
 
 #endif
